@@ -17,191 +17,10 @@
 mod ops;
 
 use mc::{json, Level, Report, Value};
-use ops::{build_ops, Alph, Op, Out, T_I, T_P, T_R, T_S};
+use c19fw::{chunks, eval_one, run_range, Op, Out, RangeOut, Stats, T_I, T_R, T_S};
+use ops::{build_ops, Alph};
 use rayon::prelude::*;
-use std::collections::{BTreeMap, HashSet};
-
-// ───────────────────────────── stream evaluation ─────────────────────────────
-
-#[derive(Default)]
-struct Stats {
-    evals: u64,
-    special_inputs: u64,
-    panics_in_domain: u64,
-    panics_outside_domain: u64,
-    conflated_nonfinite: u64,
-    empty_outputs: u64,
-    viol: BTreeMap<String, (u64, u64)>, // signature -> (count, first index)
-    distinct: HashSet<u64>,
-    nontrivial: Vec<u128>,
-}
-
-impl Stats {
-    fn v(&mut self, sig: String, idx: u64) {
-        let e = self.viol.entry(sig).or_insert((0, idx));
-        e.0 += 1;
-        if idx < e.1 {
-            e.1 = idx;
-        }
-    }
-    fn merge(&mut self, o: Stats) {
-        self.evals += o.evals;
-        self.special_inputs += o.special_inputs;
-        self.panics_in_domain += o.panics_in_domain;
-        self.panics_outside_domain += o.panics_outside_domain;
-        self.conflated_nonfinite += o.conflated_nonfinite;
-        self.empty_outputs += o.empty_outputs;
-        for (k, (n, i)) in o.viol {
-            let e = self.viol.entry(k).or_insert((0, i));
-            e.0 += n;
-            if i < e.1 {
-                e.1 = i;
-            }
-        }
-        if self.distinct.len() < 100_000 {
-            self.distinct.extend(o.distinct);
-        }
-        self.nontrivial.extend(o.nontrivial);
-    }
-}
-
-fn is_canonical_f32(bits: u32) -> Result<(), &'static str> {
-    let exp = (bits >> 23) & 0xff;
-    let mant = bits & 0x7f_ffff;
-    if bits == 0x8000_0000 {
-        Err("negative-zero")
-    } else if exp == 0 && mant != 0 {
-        Err("subnormal")
-    } else if exp == 255 && mant != 0 && bits != 0x7fc0_0000 {
-        Err("non-canonical-NaN")
-    } else {
-        Ok(())
-    }
-}
-
-fn nonfinite32(v: u64) -> bool {
-    ((v as u32) >> 23) & 0xff == 0xff
-}
-
-/// Evaluate one input; returns false if the op panicked.  Applies the stated conflation.
-fn eval_one(op: &Op, idx: u64, o: &mut Out) -> (bool, bool) {
-    o.reset();
-    let ok = std::panic::catch_unwind(std::panic::AssertUnwindSafe(|| (op.eval)(idx, o))).is_ok();
-    let mut conflated = false;
-    if !ok {
-        o.n = 0;
-        o.push(T_P, if op.conflate { 0 } else { 1 });
-    } else if op.conflate && (0..o.n).any(|i| (o.tag[i] == T_R || o.tag[i] == T_S) && nonfinite32(o.val[i])) {
-        conflated = true;
-        o.n = 0;
-        o.push(T_P, 0);
-    }
-    (ok, conflated)
-}
-
-struct RangeOut {
-    raw: [u8; 32],
-    canon: [u8; 32],
-    stats: Stats,
-}
-
-/// Digest (raw and NaN-canonicalised) of the result stream of `op` over indices a..b; with
-/// `oracles` also evaluates every in-process oracle.
-fn run_range(op: &Op, a: u64, b: u64, oracles: bool, keys: bool) -> RangeOut {
-    let mut hr = blake3::Hasher::new();
-    let mut hc = blake3::Hasher::new();
-    let mut br: Vec<u8> = Vec::with_capacity(1 << 16);
-    let mut bc: Vec<u8> = Vec::with_capacity(1 << 16);
-    let mut st = Stats::default();
-    let mut o = Out::new();
-    let stride = (op.n / 65_536).max(1);
-    for idx in a..b {
-        let (ok, conflated) = eval_one(op, idx, &mut o);
-        br.push(o.n as u8);
-        bc.push(o.n as u8);
-        for i in 0..o.n {
-            br.push(o.tag[i]);
-            br.extend_from_slice(&o.val[i].to_le_bytes());
-            bc.push(o.tag[i]);
-            let mut v = o.val[i];
-            if (o.tag[i] == T_R || o.tag[i] == T_S) && nonfinite32(v) && (v as u32) & 0x7f_ffff != 0 {
-                v = 0x7fc0_0000;
-            }
-            bc.extend_from_slice(&v.to_le_bytes());
-        }
-        if br.len() >= (1 << 16) - 1024 {
-            hr.update(&br);
-            hc.update(&bc);
-            br.clear();
-            bc.clear();
-        }
-        if oracles {
-            st.evals += 1;
-            let special = (op.special)(idx);
-            if special {
-                st.special_inputs += 1;
-                if keys {
-                    let mut k = op.name.as_bytes().to_vec();
-                    k.extend_from_slice(&idx.to_le_bytes());
-                    st.nontrivial.push(Report::key(&k));
-                }
-            }
-            if !ok {
-                if (op.in_domain)(idx) {
-                    st.panics_in_domain += 1;
-                    st.v(format!("{}:panic-on-finite-input", op.name), idx);
-                } else {
-                    st.panics_outside_domain += 1;
-                }
-            }
-            if conflated {
-                st.conflated_nonfinite += 1;
-            }
-            if o.n == 0 {
-                st.empty_outputs += 1;
-            }
-            for i in 0..o.n {
-                if o.tag[i] == T_S {
-                    if let Err(c) = is_canonical_f32(o.val[i] as u32) {
-                        st.v(format!("{}:F32Scalar-result-is-{c}", op.name), idx);
-                    }
-                }
-            }
-            for f in &o.fails[..o.nf] {
-                st.v(format!("{}:{f}", op.name), idx);
-            }
-            if idx % stride == 0 && st.distinct.len() < 4096 {
-                let mut h = 0xcbf2_9ce4_8422_2325u64;
-                for i in 0..o.n {
-                    h = (h ^ o.val[i] ^ ((o.tag[i] as u64) << 56)).wrapping_mul(0x100_0000_01b3);
-                }
-                st.distinct.insert(h);
-            }
-        }
-    }
-    hr.update(&br);
-    hc.update(&bc);
-    RangeOut { raw: *hr.finalize().as_bytes(), canon: *hc.finalize().as_bytes(), stats: st }
-}
-
-fn chunk_size(n: u64) -> u64 {
-    if n > (1 << 24) {
-        1 << 20
-    } else {
-        4096
-    }
-}
-
-fn chunks(n: u64) -> Vec<(u64, u64)> {
-    let c = chunk_size(n);
-    let mut v = Vec::new();
-    let mut a = 0;
-    while a < n {
-        v.push((a, (a + c).min(n)));
-        a += c;
-    }
-    v
-}
+use std::collections::BTreeMap;
 
 // ───────────────────────────── sub-binary modes ─────────────────────────────
 
@@ -275,14 +94,32 @@ fn sub_mode(args: &[String]) -> bool {
             let mut it = r.split("..");
             let a: u64 = it.next().and_then(|s| s.parse().ok()).unwrap_or(0);
             let b: u64 = it.next().and_then(|s| s.parse().ok()).unwrap_or(0);
+            if args.iter().any(|x| x == "--per-element") {
+                let fps: Vec<(u64, u64)> = (a..b.min(op.n)).into_par_iter().map(|i| element_fp(op, i)).collect();
+                let mut out = String::with_capacity(fps.len() * 44);
+                for (k, (r, c)) in fps.iter().enumerate() {
+                    out.push_str(&format!("L {} {r:016x} {c:016x}\n", a + k as u64));
+                }
+                print!("{out}");
+                continue;
+            }
             let out = run_range(op, a, b.min(op.n), false, false);
             println!("R {} {} {} {} {}", op.name, a, b, mc::hex(&out.raw), mc::hex(&out.canon));
             continue;
         }
         let cs = chunks(op.n);
-        let res: Vec<RangeOut> = cs.par_iter().map(|&(a, b)| run_range(op, a, b, false, false)).collect();
+        let (c0, c1) = match arg_after(args, "--chunks") {
+            Some(r) => {
+                let mut it = r.split("..");
+                let a: usize = it.next().and_then(|s| s.parse().ok()).unwrap_or(0);
+                let b: usize = it.next().and_then(|s| s.parse().ok()).unwrap_or(cs.len());
+                (a.min(cs.len()), b.min(cs.len()))
+            }
+            None => (0, cs.len()),
+        };
+        let res: Vec<RangeOut> = cs[c0..c1].par_iter().map(|&(a, b)| run_range(op, a, b, false, false)).collect();
         for (i, r) in res.iter().enumerate() {
-            println!("D {} {} {} {}", op.name, i, mc::hex(&r.raw), mc::hex(&r.canon));
+            println!("D {} {} {} {}", op.name, c0 + i, mc::hex(&r.raw), mc::hex(&r.canon));
         }
     }
     true
@@ -316,29 +153,43 @@ struct Other {
     bin: String,
 }
 
-/// Find the first index in a..b whose result differs between us and `other` (digest column
-/// `col`: 4 = raw, 5 = NaN-canonicalised).
+/// 64-bit fingerprints (raw, NaN-canonicalised) of the result of one input.
+fn element_fp(op: &Op, idx: u64) -> (u64, u64) {
+    let r = run_range(op, idx, idx + 1, false, false);
+    let f = |d: &[u8; 32]| u64::from_le_bytes([d[0], d[1], d[2], d[3], d[4], d[5], d[6], d[7]]);
+    (f(&r.raw), f(&r.canon))
+}
+
+/// Find the first index in a..b whose result differs between us and `other`: first confirm with
+/// a `--range a..b` digest, then ask the other build for its per-element fingerprints of that
+/// chunk (`--per-element`) and compare them with ours element by element.
 fn bisect(op: &Op, other: &Other, tier: &str, a: u64, b: u64, canon: bool) -> Result<u64, String> {
-    let differs = |lo: u64, hi: u64| -> Result<bool, String> {
-        let mine = run_range(op, lo, hi, false, false);
-        let l = run_sub(&other.bin, tier, &["--digests".into(), "--op".into(), op.name.into(), "--range".into(), format!("{lo}..{hi}")])?;
-        let line = l.iter().find(|x| x.len() >= 6 && x[0] == "R").ok_or("no R line from sub-binary")?;
-        let (m, t) = if canon { (mc::hex(&mine.canon), &line[5]) } else { (mc::hex(&mine.raw), &line[4]) };
-        Ok(m != *t)
-    };
-    let (mut lo, mut hi) = (a, b);
-    if !differs(lo, hi)? {
+    let mine = run_range(op, a, b, false, false);
+    let l = run_sub(&other.bin, tier, &["--digests".into(), "--op".into(), op.name.into(), "--range".into(), format!("{a}..{b}")])?;
+    let line = l.iter().find(|x| x.len() >= 6 && x[0] == "R").ok_or("no R line from sub-binary")?;
+    let same = if canon { mc::hex(&mine.canon) == line[5] } else { mc::hex(&mine.raw) == line[4] };
+    if same {
         return Err(format!("chunk {a}..{b} digests differ but the range digest does not (nondeterminism?)"));
     }
-    while hi - lo > 1 {
-        let mid = lo + (hi - lo) / 2;
-        if differs(lo, mid)? {
-            hi = mid;
-        } else {
-            lo = mid;
-        }
+    let l = run_sub(&other.bin, tier, &["--digests".into(), "--op".into(), op.name.into(), "--range".into(), format!("{a}..{b}"), "--per-element".into()])?;
+    let theirs: Vec<&Vec<String>> = l.iter().filter(|x| x.len() >= 4 && x[0] == "L").collect();
+    if theirs.len() as u64 != b - a {
+        return Err(format!("per-element listing has {} lines, expected {}", theirs.len(), b - a));
     }
-    Ok(lo)
+    let firsts: Vec<Option<u64>> = (0..(b - a))
+        .into_par_iter()
+        .map(|k| {
+            let (r, c) = element_fp(op, a + k);
+            let t = theirs[k as usize];
+            let m = if canon { format!("{c:016x}") } else { format!("{r:016x}") };
+            if m != t[if canon { 3 } else { 2 }] {
+                Some(a + k)
+            } else {
+                None
+            }
+        })
+        .collect();
+    firsts.into_iter().flatten().next().ok_or_else(|| "range digests differ but no element does".to_string())
 }
 
 fn eval_remote(op: &Op, other: &Other, tier: &str, idx: u64) -> String {
@@ -354,12 +205,15 @@ fn case_json(op: &Op, idx: u64) -> Value {
     json!({"op": op.name, "index": idx, "inputs": (op.describe)(idx), "result_in_this_build": words_json(&o)})
 }
 
-fn differential(r: &Report, op: &Op, mine: &[RangeOut], others: &[Other], prefetched: &[Option<Vec<Vec<String>>>], tier: &str) {
-    let cs = chunks(op.n);
+/// Compare our digests of chunks `c0..c0+mine.len()` of `op` with the other builds'.
+/// Returns the number of violations registered (callers stop after the first window that has any).
+fn differential(r: &Report, op: &Op, c0: usize, mine: &[RangeOut], others: &[Other], prefetched: &[Option<Vec<Vec<String>>>], tier: &str) -> usize {
+    let cs: Vec<(u64, u64)> = chunks(op.n)[c0..c0 + mine.len()].to_vec();
+    let mut found = 0;
     for (oi, other) in others.iter().enumerate() {
         let lines = match &prefetched[oi] {
             Some(l) => l.clone(),
-            None => match run_sub(&other.bin, tier, &["--digests".into(), "--op".into(), op.name.into()]) {
+            None => match run_sub(&other.bin, tier, &["--digests".into(), "--op".into(), op.name.into(), "--chunks".into(), format!("{}..{}", c0, c0 + mine.len())]) {
                 Ok(l) => l,
                 Err(e) => {
                     r.machinery_error(&e);
@@ -386,25 +240,26 @@ fn differential(r: &Report, op: &Op, mine: &[RangeOut], others: &[Other], prefet
         }
         if let Some(&c) = canon_bad.first() {
             match bisect(op, other, tier, cs[c].0, cs[c].1, true) {
-                Ok(idx) => r.violation(
+                Ok(idx) => { found += 1; r.violation(
                     &format!("{}:profile-divergence", op.name),
                     json!({"case": case_json(op, idx), "other_build": other.tag, "result_in_other_build": eval_remote(op, other, tier, idx),
-                           "first_differing_chunk": c, "differing_chunks": canon_bad.len(), "chunks": mine.len()}),
-                ),
+                           "first_differing_chunk": c0 + c, "differing_chunks": canon_bad.len(), "chunks": mine.len()}),
+                ) }
                 Err(e) => r.machinery_error(&format!("{}: bisect failed: {e}", op.name)),
             }
         }
         if let Some(&c) = raw_bad.iter().find(|c| !canon_bad.contains(c)) {
             match bisect(op, other, tier, cs[c].0, cs[c].1, false) {
-                Ok(idx) => r.violation(
+                Ok(idx) => { found += 1; r.violation(
                     &format!("{}:profile-divergence:NaN-payload-only", op.name),
                     json!({"case": case_json(op, idx), "other_build": other.tag, "result_in_other_build": eval_remote(op, other, tier, idx),
-                           "first_differing_chunk": c, "differing_chunks": raw_bad.len(), "chunks": mine.len()}),
-                ),
+                           "first_differing_chunk": c0 + c, "differing_chunks": raw_bad.len(), "chunks": mine.len()}),
+                ) }
                 Err(e) => r.machinery_error(&format!("{}: bisect failed: {e}", op.name)),
             }
         }
     }
+    found
 }
 
 // ───────────────────────────── main ─────────────────────────────
@@ -491,23 +346,41 @@ fn main() {
         others.iter().map(|_| None).collect()
     };
 
+    // thorough: stop starting new work after 25 min (VERIF_C19_SOFT_CAP_S overrides)
+    let soft_cap_s: f64 = std::env::var("VERIF_C19_SOFT_CAP_S").ok().and_then(|s| s.parse().ok()).unwrap_or(if r.thorough() { 1500.0 } else { 1.0e9 });
+
     let mut total_special = 0u64;
     let mut per_op = serde_json::Map::new();
     let mut sampled = 0;
     for op in &ops {
-        if r.over_budget_frac(0.92) {
+        if r.elapsed_s() > soft_cap_s || r.over_budget_frac(0.92) {
             r.cap_hit(&format!("op {} ({} inputs) not run: wall cap", op.name, op.n));
             continue;
         }
         let t0 = r.elapsed_s();
         let cs = chunks(op.n);
         let keys = op.n <= (1 << 20);
-        let res: Vec<RangeOut> = cs.par_iter().map(|&(a, b)| run_range(op, a, b, true, keys)).collect();
+        // big sweeps are processed in windows of 256 chunks (2^28 inputs) so that the wall cap can
+        // stop between windows; what was fully compared is recorded.
+        let window = 256usize;
         let mut st = Stats::default();
-        let mut mine = Vec::with_capacity(res.len());
-        for mut x in res {
-            st.merge(std::mem::take(&mut x.stats));
-            mine.push(x);
+        let mut done_chunks = 0usize;
+        let mut c0 = 0usize;
+        while c0 < cs.len() {
+            if c0 > 0 && (r.elapsed_s() > soft_cap_s || r.over_budget_frac(0.92)) {
+                r.cap_hit(&format!("op {}: sweep stopped by the wall cap after {} of {} chunks ({} of {} inputs fully checked and compared across profiles)", op.name, c0, cs.len(), cs[c0].0, op.n));
+                break;
+            }
+            let c1 = (c0 + window).min(cs.len());
+            let res: Vec<RangeOut> = cs[c0..c1].par_iter().map(|&(a, b)| run_range(op, a, b, true, keys)).collect();
+            let mut mine = Vec::with_capacity(res.len());
+            for mut x in res {
+                st.merge(std::mem::take(&mut x.stats));
+                mine.push(x);
+            }
+            differential(&r, op, c0, &mine, &others, &prefetched, tier);
+            done_chunks = c1;
+            c0 = c1;
         }
         r.eval(st.evals);
         r.nontrivial_many(st.nontrivial.iter().copied());
@@ -527,8 +400,7 @@ fn main() {
             r.sample(case_json(op, idx.min(op.n - 1)));
             sampled += 1;
         }
-        differential(&r, op, &mine, &others, &prefetched, tier);
-        per_op.insert(op.name.to_string(), json!({"inputs": op.n, "chunks": cs.len(), "distinct_outputs_seen": nd, "special_inputs": st.special_inputs,
+        per_op.insert(op.name.to_string(), json!({"inputs": op.n, "chunks": cs.len(), "chunks_done": done_chunks, "distinct_outputs_seen": nd, "special_inputs": st.special_inputs,
             "panics_finite_inputs": st.panics_in_domain, "panics_nonfinite_inputs": st.panics_outside_domain, "skipped_outside_domain": st.empty_outputs, "wall_s": ((r.elapsed_s() - t0) * 100.0).round() / 100.0}));
         println!("[C19] {:<18} n={:<11} distinct>={:<5} special={:<10} {:.1}s", op.name, op.n, nd, st.special_inputs, r.elapsed_s() - t0);
     }
